@@ -1,0 +1,110 @@
+//go:build verif
+
+package networksharding
+
+// Contracts for govc (/verif). Comment-only file: no executable code, not part of the default build.
+
+/*@
+struct listsSharder
+  invariant minima: maxIntraShardValidators >= 1 && maxCrossShardValidators >= 1 && maxIntraShardObservers >= 1 && maxCrossShardObservers >= 1 && maxSeeders >= 0 && maxFullHistoryObservers >= 0 && maxUnknown >= 1
+  invariant total:  maxIntraShardValidators + maxCrossShardValidators + maxIntraShardObservers + maxCrossShardObservers + maxSeeders + maxFullHistoryObservers + maxUnknown == maxPeerCount
+
+// sum of the six per-category maxima of a configuration, as mathematical integers (the fields are uint32)
+spec fn providedOf(c config.ShardingConfig) int = c.MaxIntraShardValidators + c.MaxCrossShardValidators + c.MaxIntraShardObservers + c.MaxCrossShardObservers + c.MaxSeeders + c.MaxFullHistoryObservers
+
+func NewListsSharder(arg ArgListsSharder) (ls *listsSharder, err error)
+  ensures  valid-configuration: err == nil ==> ls != nil && inv(ls)
+  ensures  valid-configuration-unless-uint32-wraps: err == nil && providedOf(arg.P2pConfig.Sharding) + 1 < 4294967296 ==> ls != nil && inv(ls)
+  ensures  keeps-target: err == nil ==> ls.maxPeerCount == arg.P2pConfig.Sharding.TargetPeerCount && ls.maxPeerCount >= 5
+
+func computeUsedAndSpare(existing int, maximum int) (used int, spare int)
+  pure
+  requires existing-is-a-count: existing >= 0
+  ensures  used:  used == min(existing, maximum)
+  ensures  spare: spare == max(maximum - existing, 0)
+  ensures  split: existing < maximum ==> used + spare == maximum
+
+func evict(distances sorting.PeerDistances, numKeep int) (r []peer.ID)
+  requires elements-set: forall k :: 0 <= k && k < len(distances) ==> distances[k] != nil
+  ensures  count: len(r) == len(distances) - min(max(numKeep, 0), len(distances))
+  ensures  from-list: forall i :: 0 <= i && i < len(r) ==> (exists k :: 0 <= k && k < len(distances) && r[i] == old(distances[k].ID))
+  ensures  distinct: (forall a, b :: 0 <= a && a < b && b < len(distances) ==> old(distances[a].ID) != old(distances[b].ID)) ==> (forall a, b :: 0 <= a && a < b && b < len(r) ==> r[a] != r[b])
+  ensures  fresh-result: fresh(r)
+  assigns  elems(distances)
+
+loop 1
+  invariant -1 <= rangeindex && rangeindex < len(evictedPD) || (rangeindex == -1 && len(evictedPD) == 0)
+  invariant len(evictedPids) == len(evictedPD) && fresh(evictedPids)
+  invariant copied: forall k :: 0 <= k && k <= rangeindex ==> evictedPids[k] == evictedPD[k].ID
+
+// catCount(ls, peers, cat): number of entries splitPeerIds puts into category cat for the list peers (defined by splitPeerIds' contract)
+spec fn catCount(ls *listsSharder, peers []peer.ID, cat int) int
+
+func (h p2p.PreferredPeersHolderHandler) Contains(peerID core.PeerID) (r bool)
+  pure
+
+// IsSeeder is used in specifications as a function of (ls, pid); the seeders list is not changed by the functions under contract
+func (ls *listsSharder) IsSeeder(pid core.PeerID) (r bool)
+  pure
+  trusted
+
+// splitPeerIds is NOT verified (ls.computeDistance is a call through a func-typed field: whole heap havoc'd in every iteration).
+// Its clauses are read off the code; `preferred-only-among-seeders` deliberately says what the code does (the seeder test comes
+// before the preferred test), not what C44 wants (no preferred peer in any list).
+func (ls *listsSharder) splitPeerIds(peers []peer.ID) (r map[int]sorting.PeerDistances)
+  requires inv(ls)
+  ensures  categories: has(r, 0) && has(r, 10) && has(r, 20) && has(r, 30) && has(r, 40) && has(r, 50) && has(r, 60)
+  ensures  counts: len(r[0]) == catCount(ls, peers, 0) && len(r[10]) == catCount(ls, peers, 10) && len(r[20]) == catCount(ls, peers, 20) && len(r[30]) == catCount(ls, peers, 30) && len(r[40]) == catCount(ls, peers, 40) && len(r[50]) == catCount(ls, peers, 50) && len(r[60]) == catCount(ls, peers, 60)
+  ensures  at-most-all: len(r[0]) + len(r[10]) + len(r[20]) + len(r[30]) + len(r[40]) + len(r[50]) + len(r[60]) <= len(peers)
+  ensures  fresh-map: fresh(r)
+  ensures  entries-set: forall cat, j :: has(r, cat) && 0 <= j && j < len(r[cat]) ==> r[cat][j] != nil
+  ensures  entries-from-list: forall cat, j :: has(r, cat) && 0 <= j && j < len(r[cat]) ==> (exists k :: 0 <= k && k < len(peers) && r[cat][j].ID == peers[k])
+  ensures  preferred-only-among-seeders: forall cat, j :: has(r, cat) && cat != 40 && 0 <= j && j < len(r[cat]) ==> !ls.preferredPeersHolder.Contains(r[cat][j].ID)
+  ensures  seeders-list-holds-seeders: forall j :: 0 <= j && j < len(r[40]) ==> ls.IsSeeder(r[40][j].ID)
+  ensures  separate-lists: forall c1, c2 :: has(r, c1) && has(r, c2) && c1 != c2 ==> base(r[c1]) != base(r[c2])
+  assigns  nothing
+  trusted
+
+// spare capacity handed down the cascade intra validators -> cross validators -> intra observers -> cross observers -> unknown
+spec fn spare0(ls *listsSharder, p []peer.ID) int = max(ls.maxIntraShardValidators - catCount(ls, p, 0), 0)
+spec fn spare1(ls *listsSharder, p []peer.ID) int = max(ls.maxCrossShardValidators + spare0(ls, p) - catCount(ls, p, 20), 0)
+spec fn spare2(ls *listsSharder, p []peer.ID) int = max(ls.maxIntraShardObservers + spare1(ls, p) - catCount(ls, p, 10), 0)
+spec fn spare3(ls *listsSharder, p []peer.ID) int = max(ls.maxCrossShardObservers + spare2(ls, p) - catCount(ls, p, 30), 0)
+// number of classified connections per category that stay after the proposed evictions
+spec fn keptIntraVal(ls *listsSharder, p []peer.ID) int = min(catCount(ls, p, 0), ls.maxIntraShardValidators)
+spec fn keptCrossVal(ls *listsSharder, p []peer.ID) int = min(catCount(ls, p, 20), ls.maxCrossShardValidators + spare0(ls, p))
+spec fn keptIntraObs(ls *listsSharder, p []peer.ID) int = min(catCount(ls, p, 10), ls.maxIntraShardObservers + spare1(ls, p))
+spec fn keptCrossObs(ls *listsSharder, p []peer.ID) int = min(catCount(ls, p, 30), ls.maxCrossShardObservers + spare2(ls, p))
+spec fn keptSeeders(ls *listsSharder, p []peer.ID) int = min(catCount(ls, p, 40), ls.maxSeeders)
+spec fn keptFullHist(ls *listsSharder, p []peer.ID) int = min(catCount(ls, p, 60), ls.maxFullHistoryObservers)
+spec fn keptUnknown(ls *listsSharder, p []peer.ID) int = min(catCount(ls, p, 50), ls.maxUnknown + spare3(ls, p))
+spec fn keptAll(ls *listsSharder, p []peer.ID) int = keptIntraVal(ls, p) + keptCrossVal(ls, p) + keptIntraObs(ls, p) + keptCrossObs(ls, p) + keptSeeders(ls, p) + keptFullHist(ls, p) + keptUnknown(ls, p)
+spec fn classified(ls *listsSharder, p []peer.ID) int = catCount(ls, p, 0) + catCount(ls, p, 10) + catCount(ls, p, 20) + catCount(ls, p, 30) + catCount(ls, p, 40) + catCount(ls, p, 50) + catCount(ls, p, 60)
+
+func (ls *listsSharder) ComputeEvictionList(pidList []peer.ID) (r []peer.ID)
+  requires inv(ls)
+  ensures  evicted-count: len(r) == classified(ls, pidList) - keptAll(ls, pidList)
+  ensures  within-target: classified(ls, pidList) - len(r) <= ls.maxPeerCount
+  ensures  strict-categories: keptSeeders(ls, pidList) <= ls.maxSeeders && keptFullHist(ls, pidList) <= ls.maxFullHistoryObservers && keptIntraVal(ls, pidList) <= ls.maxIntraShardValidators
+  ensures  only-from-list: forall i :: 0 <= i && i < len(r) ==> (exists k :: 0 <= k && k < len(pidList) && r[i] == pidList[k])
+  ensures  no-preferred: forall i :: 0 <= i && i < len(r) ==> !ls.preferredPeersHolder.Contains(r[i])
+  ensures  preferred-only-if-seeder: forall i :: 0 <= i && i < len(r) && ls.preferredPeersHolder.Contains(r[i]) ==> ls.IsSeeder(r[i])
+  ensures  cascaded-categories: keptIntraVal(ls, pidList) + keptCrossVal(ls, pidList) <= ls.maxIntraShardValidators + ls.maxCrossShardValidators && keptIntraVal(ls, pidList) + keptCrossVal(ls, pidList) + keptIntraObs(ls, pidList) + keptCrossObs(ls, pidList) <= ls.maxIntraShardValidators + ls.maxCrossShardValidators + ls.maxIntraShardObservers + ls.maxCrossShardObservers
+
+// The quota cascade on plain numbers (e.. = connected peers per category), composed from the contract of computeUsedAndSpare
+lemma quota-cascade
+  vars ls *listsSharder, e0 int, e20 int, e10 int, e30 int, e40 int, e60 int, e50 int
+  hyp  inv(ls) && e0 >= 0 && e20 >= 0 && e10 >= 0 && e30 >= 0 && e40 >= 0 && e60 >= 0 && e50 >= 0
+  call u0, s0 = computeUsedAndSpare(e0, ls.maxIntraShardValidators)
+  call u20, s20 = computeUsedAndSpare(e20, ls.maxCrossShardValidators + s0)
+  call u10, s10 = computeUsedAndSpare(e10, ls.maxIntraShardObservers + s20)
+  call u30, s30 = computeUsedAndSpare(e30, ls.maxCrossShardObservers + s10)
+  call u40, s40 = computeUsedAndSpare(e40, ls.maxSeeders)
+  call u60, s60 = computeUsedAndSpare(e60, ls.maxFullHistoryObservers)
+  call u50, s50 = computeUsedAndSpare(e50, ls.maxUnknown + s30)
+  concl within-target: u0 + u20 + u10 + u30 + u40 + u60 + u50 <= ls.maxPeerCount
+  concl strict-categories: u40 <= ls.maxSeeders && u60 <= ls.maxFullHistoryObservers && u0 <= ls.maxIntraShardValidators
+  concl cascaded-categories: u0 + u20 <= ls.maxIntraShardValidators + ls.maxCrossShardValidators && u0 + u20 + u10 <= ls.maxIntraShardValidators + ls.maxCrossShardValidators + ls.maxIntraShardObservers && u0 + u20 + u10 + u30 <= ls.maxIntraShardValidators + ls.maxCrossShardValidators + ls.maxIntraShardObservers + ls.maxCrossShardObservers
+  concl never-more-than-connected: u0 <= e0 && u20 <= e20 && u10 <= e10 && u30 <= e30 && u40 <= e40 && u60 <= e60 && u50 <= e50 && u0 >= 0 && u20 >= 0 && u10 >= 0 && u30 >= 0 && u40 >= 0 && u60 >= 0 && u50 >= 0
+  concl no-eviction-within-limits: e0 <= ls.maxIntraShardValidators && e20 <= ls.maxCrossShardValidators && e10 <= ls.maxIntraShardObservers && e30 <= ls.maxCrossShardObservers && e40 <= ls.maxSeeders && e60 <= ls.maxFullHistoryObservers && e50 <= ls.maxUnknown ==> u0 == e0 && u20 == e20 && u10 == e10 && u30 == e30 && u40 == e40 && u60 == e60 && u50 == e50
+@*/
